@@ -57,6 +57,24 @@ Lemma operand_only_now_conforms :
   agree w_operand [tI "S"; tP "("; tI "F"; tP "("; tN "1"; tP ")"; tP ")"].
 Proof. closed_agree. Qed.
 
+(* S is stricter than the implementation (and than gcc 12 / clang 14, which answer like the
+   implementation) where ISO C is silent: in Prosser's algorithm the result of a function-like
+   invocation inherits the hide sets common to the macro name and the closing parenthesis, so a name
+   stays hidden although the expansion it came from is complete.
+     #define H(x,y,z) z #x G
+     #define B H(,,) G((0))
+     #define G(x) x y B
+     H(,,B)      M, gcc, clang:  "" 0 y H(,,) G((0)) y B "" G        S:  "" 0 y B y B "" G   *)
+Definition w_inherit :=
+  [def_fun ViaDefine [tIw "H"; tP "("; tI "x"; tP ","; tI "y"; tP ","; tI "z"; tP ")"; tIw "z"; tOw "#"; tI "x"; tIw "G"]
+           "H" ["x"; "y"; "z"] false [tI "z"; tOw "#"; tI "x"; tIw "G"];
+   def_obj ViaDefine [tIw "B"; tIw "H"; tP "("; tP ","; tP ","; tP ")"; tIw "G"; tP "("; tP "("; tN "0"; tP ")"; tP ")"]
+           "B" [tI "H"; tP "("; tP ","; tP ","; tP ")"; tIw "G"; tP "("; tP "("; tN "0"; tP ")"; tP ")"];
+   def_fun ViaDefine [tIw "G"; tP "("; tI "x"; tP ")"; tIw "x"; tIw "y"; tIw "B"] "G" ["x"] false [tI "x"; tIw "y"; tIw "B"]].
+Lemma refuted_hide_set_inheritance :
+  disagree w_inherit [tI "H"; tP "("; tP ","; tP ","; tI "B"; tP ")"].
+Proof. closed_disagree. Qed.
+
 (* the backstop: a chain a -> aa -> aaa -> ... of max_level object-like macros, the last one -> 1 *)
 Fixpoint rep (n : nat) : string := match n with O => "a" | S k => String "a" (rep k) end.
 Fixpoint chain (i n : nat) : list cmacro :=
